@@ -1,5 +1,6 @@
 import XsVerif.Props.C01
 import XsVerif.Props.C01Exact
+import XsVerif.Props.C01Default
 #print axioms XsVerif.Props.C01.oracle_decides_language
 #print axioms XsVerif.Props.C01.oracle_decides_open_content
 #print axioms XsVerif.Props.C01.rejected_reports_error
@@ -18,3 +19,5 @@ import XsVerif.Props.C01Exact
 #print axioms XsVerif.Props.C01Exact.strict_encode_complete
 #print axioms XsVerif.Props.C01Exact.encodeSilent_eq_verdict
 #print axioms XsVerif.Props.C01Exact.encode_exact_flat_sequence
+#print axioms XsVerif.Props.C01Default.empty_content_without_applying_open
+#print axioms XsVerif.Props.C01Default.applying_open_is_withOpen
